@@ -326,3 +326,11 @@ nharness! {
     #[kani::unwind(10)]
     fn probe_u10() { probe_body(4, 4, false); }
 }
+nharness! {
+    #[kani::unwind(8)]
+    fn probe_v4_6_64() { probe_body(6, 64, false); }
+}
+nharness! {
+    #[kani::unwind(8)]
+    fn probe_v5_8_64() { probe_body(8, 64, true); }
+}
